@@ -87,7 +87,7 @@ Definition finishM {A} (m : M A) : M A :=
             end.
 
 Section Builtins.
-  Variable ev : nat -> val -> nat -> M val.
+  Variable ev : nat -> val -> positive -> M val.
   (** Apply as seen from inside a builtin running below an EVAL frame at depth d *)
   Variable app : val -> list val -> M val.
 
@@ -199,11 +199,11 @@ Section Builtins.
     end.
 End Builtins.
 
-Definition ROOT : nat := 0.
+Definition ROOT : positive := 1%positive.
 
 (** call of a registered Go function from (below) an EVAL frame at depth d.
     [k] bounds the nesting of builtins applying builtins (apply apply ...). *)
-Fixpoint call_builtin (k : nat) (ev : nat -> val -> nat -> M val) (d : nat) (name : str) (args : list val) : M val :=
+Fixpoint call_builtin (k : nat) (ev : nat -> val -> positive -> M val) (d : nat) (name : str) (args : list val) : M val :=
   match k with
   | O => fun st => (OutOfFuel, st)
   | S k' =>
@@ -236,7 +236,7 @@ Fixpoint call_builtin (k : nat) (ev : nat -> val -> nat -> M val) (d : nat) (nam
         end
   end.
 
-Fixpoint eval (n : nat) (d : nat) (ast : val) (env : nat) {struct n} : M val :=
+Fixpoint eval (n : nat) (d : nat) (ast : val) (env : positive) {struct n} : M val :=
   match n with
   | O => fun st => (OutOfFuel, st)
   | S n' => eval_step (eval n') (call_builtin n' (eval n')) n' d ast env
@@ -246,4 +246,4 @@ Fixpoint eval (n : nat) (d : nat) (ast : val) (env : nat) {struct n} : M val :=
 Definition raw_builtins : list str := [s_ "eval"; s_ "trace!"; s_ "depth!"].
 Definition root_frame : frame :=
   mkFrame (map (fun n => (n, VBuiltin n)) (raw_builtins ++ map fst builtin_table)) None.
-Definition state0 : state := mkState [root_frame] [] [].
+Definition state0 : state := mkState (PositiveMap.add ROOT root_frame (PositiveMap.empty frame)) 2%positive 1 [] [].
